@@ -246,6 +246,26 @@ func init() {
 		}
 		panic("Slice")
 	})
+	R("Convert", func(e *Exec, r RV, a []Value) Value {
+		if !r.valid {
+			e.gopanic("reflect: call of reflect.Value.Convert on zero Value")
+		}
+		dt := a[0].(Iface).v.(Rtype).t
+		if !types.ConvertibleTo(r.t, dt) {
+			e.gopanic(fmt.Sprintf("reflect.Value.Convert: value of type %s cannot be converted to type %s", r.t, dt))
+		}
+		out := RV{valid: true, t: dt, ro: r.ro, ero: r.ero}
+		_, dstI := dt.Underlying().(*types.Interface)
+		switch {
+		case dstI && kindOf(r.t) != reflect.Interface:
+			out.v = Iface{t: r.t, v: copyVal(r.v)}
+		case dstI || types.Identical(r.t.Underlying(), dt.Underlying()):
+			out.v = copyVal(r.v)
+		default:
+			out.v = e.conv(dt, r.t, r.v)
+		}
+		return out
+	})
 	R("MapIndex", func(e *Exec, r RV, a []Value) Value {
 		e.mustKind(r, "MapIndex", reflect.Map)
 		k := a[0].(RV)
@@ -454,6 +474,9 @@ func (e *Exec) rtypeMethod(rt Rtype, name string, args []Value) Value {
 		return e.rtypeIface(t.Underlying().(*types.Map).Key())
 	case "AssignableTo":
 		return Bool(types.AssignableTo(t, args[0].(Iface).v.(Rtype).t))
+	case "ConvertibleTo":
+		// go/types' conversion rules are the language's; reflect follows them for the kinds pongo2 can meet
+		return Bool(types.ConvertibleTo(t, args[0].(Iface).v.(Rtype).t))
 	case "Comparable":
 		return Bool(types.Comparable(t))
 	case "FieldByName", "Field":
